@@ -25,6 +25,11 @@ class DeFactoCookiePolicy(DefaultCookiePolicy):
     '''
     def __init__(self, *args, **kwargs):
         self.cookie_jar = kwargs.pop('cookie_jar')
+        # Cookies set without a Domain attribute belong to the host that set
+        # them only (RFC 6265); by default the standard library also returns
+        # them to subdomains of that host.
+        kwargs.setdefault('strict_ns_domain',
+                          DefaultCookiePolicy.DomainStrictNonDomain)
         DefaultCookiePolicy.__init__(self, *args, **kwargs)
 
     def set_ok(self, cookie, request):
